@@ -170,6 +170,11 @@ fn one_case(rep: &mut Report, rng: &mut Rng, idx: u64) {
     let managed: Vec<String> = if c.delete_roller { vec![] } else { (b..b + cnt).map(|i| archive_rel(&c.pattern_rel, i)).collect() };
     let mut rolled: Vec<Vec<u8>> = vec![];
     let mut before: Snapshot = snapshot(&root).unwrap();
+    // event monitor: sees files that are created and removed again inside one roll()
+    let mut watch = crate::fswatch::Watch::new(&root);
+    if watch.is_none() {
+        rep.count("cases_without_event_monitor", 1);
+    }
     for k in 0..rolls {
         // now and then somebody removes the archive directory between two rolls
         if k > 0 && rng.chance(1, 8) {
@@ -190,7 +195,11 @@ fn one_case(rep: &mut Report, rng: &mut Rng, idx: u64) {
         }
         let content = gen_content(rng, &format!("roll{}", k));
         std::fs::write(&active, &content).unwrap();
+        if let Some(w) = watch.as_mut() {
+            let _ = w.drain(); // what the harness itself did
+        }
         let r = trap::catch(|| roller.roll(Path::new(&active)));
+        let events = watch.as_mut().map(|w| w.drain());
         match r {
             Err(p) => {
                 rep.violation(&format!("C07:panic:{}", p.site()), json!({"case": desc, "roll": k, "panic": p.message}));
@@ -224,6 +233,32 @@ fn one_case(rep: &mut Report, rng: &mut Rng, idx: u64) {
             rep.violation(sig, json!({"case": desc, "after_roll": k + 1, "what": what,
                 "directory": after.iter().filter_map(|(p, e)| match e { Entry::File { bytes, .. } => Some(format!("{} ({} bytes)", p, bytes.len())), _ => None }).collect::<Vec<_>>()}));
         };
+        // every filesystem event of this roll() concerns the rolled file, a managed name or a directory leading to one
+        if let Some(evs) = &events {
+            if watch.as_ref().map(|w| w.overflowed).unwrap_or(false) {
+                rep.count("rolls_with_event_queue_overflow", 1);
+                watch = None;
+            } else {
+                rep.count("filesystem_events_checked", evs.len() as i64);
+                rep.count("rolls_under_the_event_monitor", 1);
+                for e in evs {
+                    let leads_to_managed = managed.iter().any(|m| m.starts_with(&format!("{}/", e.path)));
+                    let ok = e.path == "app.log" || managed.contains(&e.path) || (e.is_dir && leads_to_managed);
+                    rep.observe("event_kinds", e.kind());
+                    if !ok && !before.contains_key(&e.path) {
+                        // a name that did not exist before this call: if it is still there afterwards the snapshot
+                        // comparison below reports it; a scratch file that is gone again is not "after the rolls" state
+                        rep.count("events_on_transient_names_outside_the_managed_set", 1);
+                        continue;
+                    }
+                    if !ok {
+                        fail(rep, "C07:foreign-path-touched-during-roll", format!("{} {} while roll() ran (events of this call: {:?})", e.path, e.kind(),
+                            evs.iter().map(|x| format!("{} {}", x.kind(), x.path)).take(30).collect::<Vec<_>>()));
+                        return;
+                    }
+                }
+            }
+        }
         if after.contains_key("app.log") {
             fail(rep, "C07:rolled-file-still-present", "the rolled file still exists at its original path".into());
             return;
@@ -326,7 +361,7 @@ pub fn run(rep: &mut Report) {
         look-alike and unrelated bystanders; after every roll a recursive snapshot (bytes, inode, mtime) is compared with the \
         window model (decompressing strictly, trailing garbage rejected); non-trivial = at least one roll; distinct = distinct case".to_owned();
     rep.assume("excluded as ill-defined: base+count > u32::MAX, an active path that is itself a managed name");
-    rep.assume("a foreign file created and removed again inside one roll() call would not be seen (snapshots are taken between calls)");
+    rep.assume("inotify events (create, delete, modify, rename, attribute change) on every directory below the scratch root are read after each roll(): an event on a file that existed before the call and is not a managed name is a violation even if a later snapshot shows it unchanged (same bytes, inode and mtime restored); events on names that did not exist before the call and are gone after it (scratch files of the roller) are counted, not judged - the property speaks about the state after the rolls");
     if !cfg!(feature = "full") {
         rep.assume("this harness build has no gzip/zstd support: compressed patterns are not exercised");
     }
@@ -334,4 +369,5 @@ pub fn run(rep: &mut Report) {
     run_cases(rep, "roll", n, one_case);
     rep.require(rep.counter("rolls_observed") > 1000, "fewer than 1000 rolls observed");
     rep.require(rep.counter("archives_compared") > 1000, "fewer than 1000 archives compared");
+    rep.require(rep.counter("rolls_under_the_event_monitor") > 1000, "fewer than 1000 rolls ran under the filesystem-event monitor");
 }
